@@ -40,7 +40,8 @@ RULE = ("probability vectors: 8 dyadic classes (uniform, one dominant, many zero
         "32-bit words for TABLE incl. alias thresholds; exhaustion path of INVERSION: InversionMethod built directly on dyadic probability "
         "tables whose sum is 1 - 2^-k (k = 52, 40, 12, 4) or 1, uniforms 1 - 2^-53, 1 - 2^-52, random in (sum, 1), 1, 1.25 with EVERY position of "
         "the frontier deque scripted into np.random.choice, and factory chains with intensity 3, 5, 7 (rounded probabilities) on interior-origin axes and (wave 7) EDGE-origin axes (L = 0 or R = 0, incl. the audit's witness and its mirror), each also as an exact float-increment history (default and tiny _max_storage, uniforms at the stored sums -/+ one ulp); every "
-        "direct sampler is built from ONE float64 ndarray that must stay bit-identical; wave 6: 2-d INVERSION histories with EVERY draw given a scripted position of np.random.choice in the frontier deque (same position in both orders), 3-d density-table chains (c01_table3.TableN, arbitrary dyadic cell masses in all octants, grids [-1,1]^3, [-1,2]^3, [-2,2]^3; thorough: up to [-3,3]^3) for the n-d tree. wave 7: the library's REAL Levy models (HEM, Merton, VG) as plain models AND wrapped in ExponentialOf*Model, every SamplingMethod through MarkovChainProcess on fixed-size uniform grids whose ends cut > 1e-3 of both tails (oracle). non-trivial = distinct (sampler, vector/chain, uniform) with >= 3 states")
+        "direct sampler is built from ONE float64 ndarray that must stay bit-identical; wave 6: 2-d INVERSION histories with EVERY draw given a scripted position of np.random.choice in the frontier deque (same position in both orders), 3-d density-table chains (c01_table3.TableN, arbitrary dyadic cell masses in all octants, grids [-1,1]^3, [-1,2]^3, [-2,2]^3; thorough: up to [-3,3]^3) for the n-d tree. wave 7: the library's REAL Levy models (HEM, Merton, VG) as plain models AND wrapped in ExponentialOf*Model, every SamplingMethod through MarkovChainProcess on fixed-size uniform grids whose ends cut > 1e-3 of both tails (oracle). non-trivial = distinct (sampler, vector/chain, uniform) with >= 3 states.  "
+        "TIE spot check (wave 8): the generated TIE definitions are spot-checked against the running Python on every run -- groups bst and alias_draw of harness/tie_selftest.py (12 cases each, kind tie_spot): GenTieBst.sample_with_u against BinarySearchTree.sample_with_u on real trees of 2..8 leaves (dyadic or uniform probabilities) and GenTieAlias.draw_with_u against AliasMethod._draw_with_u on the tables of the real create_alias (1..8 columns), dyadic uniforms k/1024, exact")
 MODELLED = [
     "numpy arrays / collections.deque / Python lists as Coq lists (alias deques right-to-left); np.uint(ku) as floor; int(x) as truncation; np.cumsum as a running sum; np.searchsorted(side=left) on a non-decreasing array as the number of leading entries < v",
     "list.sort(key, reverse=True) as a stable decreasing insertion sort; bisect.bisect_left by its binary-search loop",
@@ -57,6 +58,7 @@ MODELLED = [
     "wave 7 -- float runs of INVERSION: with prob := the increments of the floats stored in _cumulative_probabilities the model's partial sums ARE the stored floats (every comparison of the sampler is with these floats), so inv_step_f reproduces a float run exactly; tied on factory chains with rounded probabilities (intensity 3, 5, 7; interior and EDGE-origin axes) by group inversion_floatinc. Edge-origin axes (L = 0 or R = 0) are also in inversion_direct (exact tables) -- they are NOT driven through `chains` because BinarySearchTreeAdapted1D does not terminate for u = 0.0 on an axis with L = 0 (left half axis (0, -1): `while left != right` never ends; observed, not recorded as a finding: same class as F-C02-6, u = 0.0 only)",
     "float arithmetic: theorems are over Q with exact-sum hypotheses (sum p = 1, u < sum p) that float vectors meet only up to rounding (e.g. sums 0.9999999999999998); exact agreement is checked on dyadic inputs where every float operation of the samplers is exact, incl. vectors whose sum is deliberately off 1; non-dyadic vectors and intensities by the oracle with tolerance 1e-9",
     "Qred in Model/Table.v (reduction to lowest terms, Qred x == x) only keeps vm_compute fast",
+    "TIE spot check (wave 8): the generated TIE definitions are spot-checked against the running Python on every run (correspond -> tie_selftest.selftest_spotchecks on the GenTie modules of GEN_DEPS: the real BinarySearchTree / create_alias constructions feed the generated descent and draw); a disagreement is a broken obligation 'correspondence TIE <group>'",
 ]
 ASSUMPTIONS = [
     "probability vector entries are >= 0 (zeros and ties allowed), length >= 1; uniforms 0 <= u < sum p (alias, table: sum p = 1)",
@@ -2460,8 +2462,29 @@ Definition chk_ba1d (c : list Q * Z * list (Q * Q * Q) * Q * Q * list (Q * Z)) :
 """
 
 
+def _tie_spot(res):
+    """cross-cutting TIE layer (DESIGN 2.2a): the GENERATED GenTie* definitions of GEN_DEPS (just regenerated and compiled by the driver)
+    against the RUNNING Python functions on real objects, dyadic inputs, exact, one coqc (harness/tie_selftest.py: bst, alias_draw)"""
+    try:
+        import tie_selftest
+        out = tie_selftest.selftest_spotchecks([m for m in GEN_DEPS if m.startswith("GenTie")], res.seed, name=PROP)
+    except Exception as e:  # noqa: BLE001 -- the implementation raised on a spot-check input, or the case file does not compile
+        res.broke("correspondence TIE spot check", f"could not run: {type(e).__name__}: {str(e)[-1500:]}")
+        return
+    if not out:
+        res.broke("correspondence TIE spot check", "no spot-check group of harness/tie_selftest.py is covered by the GenTie modules of GEN_DEPS")
+    for g, (n, bad) in sorted(out.items()):
+        for i in range(n):
+            res.count(("tie_spot", g, res.seed, i), kind="tie_spot")
+            res.bump("tie_spot", g)
+        if bad:
+            res.broke(f"correspondence TIE {g}", f"generated definition(s) of group {g} disagree with the running Python function on "
+                                                 f"{len(bad)} of {n} spot-check cases: indices {bad[:10]} (build/TIE/{PROP}.v)")
+
+
 def correspond(res):
     rng = random.Random(res.seed)
+    _tie_spot(res)
     groups = []
 
     def viol(what, **kw):
